@@ -410,7 +410,19 @@ impl Module for M {
                     Shape::RRect(rr) if m1 != mp => {
                         let keys: std::collections::BTreeSet<(i32, i32)> = m1.keys().chain(mp.keys()).copied().collect();
                         let diff: Vec<Point> = keys.iter().filter(|k| m1.get(*k) != mp.get(*k)).map(|(y, x)| Point::new(*x, *y)).filter(|p| tb.contains(*p)).collect();
-                        if crate::m_rrect::known_finding_explains(rr, style.stroke_width, style.stroke_alignment, &diff) {
+                        // at a point of the known mechanism `draw()` paints the FILL colour (scanline of the fill area) and
+                        // `pixels()` nothing (fill part of a scanline of the stroke area): anything else is not the finding
+                        let fill_num: Option<u32> = style.fill_color.map(|c| {
+                            let f = c.num();
+                            match ct {
+                                "binary" => BinaryColor::from_num(f).num(),
+                                "gray8" => Gray8::from_num(f).num(),
+                                "rgb888" => Rgb888::from_num(f).num(),
+                                _ => f,
+                            }
+                        });
+                        let values_ok = fill_num.is_some() && diff.iter().all(|p| m1.get(&(p.y, p.x)).copied() == fill_num && mp.get(&(p.y, p.x)).is_none());
+                        if values_ok && crate::m_rrect::known_finding_explains(rr, style.stroke_width, style.stroke_alignment, &diff) {
                             format!("C01:pixels-vs-draw:{}:confined-radii", kind)
                         } else {
                             format!("C01:pixels-vs-draw:{}", kind)
@@ -514,7 +526,10 @@ impl Module for M {
                 let fsa_class = match &shape {
                     Shape::RRect(rr) if !bad.is_empty() => {
                         let pts: Vec<Point> = bad.iter().map(|b| b.0).collect();
-                        if crate::m_rrect::known_finding_explains(rr, style.stroke_width, style.stroke_alignment, &pts) {
+                        // at a point of the known mechanism (fill_area \ stroke_area: on no scanline of the stroke area) the
+                        // pixel is left UNPAINTED where the fill colour is expected; any other value is not the finding
+                        let values_ok = bad.iter().all(|b| b.1.is_none() && b.2.is_some());
+                        if values_ok && crate::m_rrect::known_finding_explains(rr, style.stroke_width, style.stroke_alignment, &pts) {
                             format!("C06:not-fill-stroke-area:{}:confined-radii", kind)
                         } else {
                             format!("C06:not-fill-stroke-area:{}", kind)
